@@ -1296,8 +1296,9 @@ class Scalar(Qube):
 
         self._check_axis(axis, 'sort()')        # make sure axis input is valid
 
-        if self._size_ == 0:
-            return self.wod._zero_sized_result(axis)
+        if self._size_ == 0:            # nothing to sort; the axis is retained
+            result = self.flatten() if axis is None else self
+            return result.wod.copy()
 
         if not np.any(self._mask_):
             result = Scalar(np.sort(self._values_, axis=axis), mask=False,
